@@ -8942,6 +8942,17 @@ def aten_scalar_tensor_complex(
     return result
 
 
+def _scatter_src_like_index(
+    src: TTensor, index: TInt, src_shape: Sequence[Any], index_shape: Sequence[Any]
+) -> TTensor:
+    """PyTorch lets src be larger than index (index.size(d) <= src.size(d)) and reads its leading corner;
+    ONNX ScatterElements requires updates.shape == indices.shape."""
+    if list(src_shape) == list(index_shape):
+        return src
+    rank = len(index_shape)
+    return op.Slice(src, [0] * rank, op.Shape(index), list(range(rank)))
+
+
 @torch_op("aten::scatter.src", trace_only=True)
 def aten_scatter_src(
     self: TTensor,
@@ -8950,10 +8961,15 @@ def aten_scatter_src(
     src: TTensor,
 ) -> TTensor:
     """scatter.src(Tensor self, int dim, Tensor index, Tensor src) -> Tensor"""
-    if len(index.shape) == 0:
+    index_shape = list(index.shape)
+    src_shape = list(src.shape)
+    if len(index_shape) == 0:
         index = op.Unsqueeze(index, [0])
-    if len(src.shape) == 0:
+        index_shape = [1]
+    if len(src_shape) == 0:
         src = op.Unsqueeze(src, [0])
+        src_shape = [1]
+    src = _scatter_src_like_index(src, index, src_shape, index_shape)
     return op.ScatterElements(self, index, src, axis=dim)
 
 
@@ -8983,6 +8999,7 @@ def aten_scatter_add(
     """scatter_add(Tensor self, int dim, Tensor index, Tensor src) -> Tensor"""
 
     # if rank(self) == 0 will lead ORT failed, skipped
+    src = _scatter_src_like_index(src, index, src.shape, index.shape)
     return op.ScatterElements(self, index, src, axis=dim, reduction="add")
 
 
